@@ -7,6 +7,7 @@ from .. import flow
 from ..fold import try_fold
 from ..util import stmts_with_env, calls_with_env, assignments_to, single_def, kwarg, str_constants
 from .common import method, unconditional_in
+from . import shared
 
 ITP = 'vermouth/gmx/itp.py'
 MOL = 'vermouth/molecule.py'
@@ -84,7 +85,15 @@ def run(ck):
 
     # ------------------------------------------------------------ interactions
     iloops = [n for n in w.body if isinstance(n, ast.For) and 'sort_interactions' in u(n.iter)]
-    ck.need(len(iloops) == 1, 'ITP writer: loop over sort_interactions(...) not found')
+    ck.ob('MPT-all-interactions', mod.loc(w), len(iloops) == 1,
+          'the ITP writer walks the interaction types of the molecule itself (a loop over molecule.sort_interactions(molecule.interactions)), {} found'.format(len(iloops)),
+          key='MPT-all-interactions|loop')
+    shared.pure_writer(ck, mod, w, [mparam])
+    for name, helper in mod.functions.items():
+        if helper is not w and any(isinstance(c, ast.Call) and call_name(c) == name for c in ast.walk(w)) and helper.args.args:
+            shared.pure_writer(ck, mod, helper, [a.arg for a in helper.args.args])
+    if len(iloops) != 1:
+        return
     il = iloops[0]
     ck.ob('MPT-all-interactions', mod.loc(il), u(il.iter) == '{0}.sort_interactions({0}.interactions)'.format(mparam),
           'the section loop covers every interaction type of the molecule (`{}`)'.format(u(il.iter)), key='MPT-all-interactions|types')
@@ -201,6 +210,13 @@ def run(ck):
     ck.ob('MPT-all-interactions', mol.loc(si), ok, 'sort_interactions returns every interaction type that has at least one interaction', key='MPT-all-interactions|sort_interactions')
     # sorted_nodes covers all nodes
     sn = mol.func('Molecule.sorted_nodes')
-    ck.ob('MPT-atoms', mol.loc(sn), 'sorted(self.nodes, key=' in u(sn) and "get('atomid'" in u(sn), 'sorted_nodes yields every node, ordered by atom id',
+    body = [s for s in sn.body if not (isinstance(s, ast.Expr) and isinstance(s.value, ast.Constant))]
+    ok = len(body) == 1 and isinstance(body[0], ast.Expr) and isinstance(body[0].value, ast.YieldFrom) and isinstance(body[0].value.value, ast.Call) \
+        and call_name(body[0].value.value) == 'sorted' and u(body[0].value.value.args[0]) == 'self.nodes'
+    if ok:
+        lam = kwarg(body[0].value.value, 'key')
+        ok = isinstance(lam, ast.Lambda) and u(lam.body) == "self.nodes[{}].get('atomid', np.inf)".format(lam.args.args[0].arg) and kwarg(body[0].value.value, 'reverse') is None
+    ck.ob('MPT-atoms', mol.loc(sn), ok, 'sorted_nodes yields every node, ordered by atom id (a missing id sorts last; the id 0 is an id like any other)',
           key='MPT-atoms|sorted_nodes')
+    shared.truthy_zero(ck, ['vermouth/gmx/itp.py', 'vermouth/molecule.py'])
     ck.assume('textual alignment and parameter formatting are not decided; reading the text back is not modelled')
